@@ -386,7 +386,7 @@ template AssignA(n) {
     u2.in <== mid;
     u2.out === 0;
 }
-";
+\n// Joins with three and more incoming paths and several variables merged there (the order of\n// the phi statements of a block and of the children in the dominator tree comes from hash sets).\n// Two findings of one rule at one location (the parameter list).\nfunction twopar(p, q, r) {\n    return 1;\n}\n\nfunction chain(n) {\n    var a = 0;\n    var b = 0;\n    var c = 0;\n    if (n == 1) {\n        a = 1;\n    } else if (n == 2) {\n        b = 2;\n    } else if (n == 3) {\n        c = 3;\n    } else {\n        a = 4;\n        c = 4;\n    }\n    return a * 100 + b * 10 + c;\n}\n\ntemplate Chain(n, m) {\n    signal input in;\n    signal output out;\n    var a = 0;\n    var b = 0;\n    var c = 0;\n    if (n > 1) {\n        a = 1;\n        if (m > 2) {\n            b = 2;\n            if (n > m) {\n                c = 3;\n            }\n        }\n    }\n    out <== in * (a + b + c + chain(n));\n}\n";
 
 /// (f): the pass corpus under every hash seed, each seed twice.
 pub fn check_pass_corpus(seeds: u64, dir: &Path, case: &Value) -> (Vec<Violation>, u64) {
@@ -395,9 +395,47 @@ pub fn check_pass_corpus(seeds: u64, dir: &Path, case: &Value) -> (Vec<Violation
     std::fs::write(dir.join("passes.circom"), PASS_CORPUS).expect("write");
     let mut reference: Option<BTreeMap<String, usize>> = None;
     let mut runs = 0;
+    let sarif_keys = |path: &Path| -> Vec<String> {
+        let Ok(text) = std::fs::read_to_string(path) else { return vec!["<no sarif file>".into()] };
+        let Ok(v) = serde_json::from_str::<Value>(&text) else { return vec!["<invalid sarif>".into()] };
+        let mut keys: Vec<String> = crate::sut::bin::sarif_results(&v)
+            .0
+            .iter()
+            .map(|r| format!("{}|{}|{}|{:?}|{:?}", r.rule_id, r.level, r.message, r.locations.iter().map(|l| (l.1, l.2, l.3, l.4)).collect::<Vec<_>>(), {
+                let mut rel: Vec<_> = r.related.iter().map(|l| (l.1, l.2, l.3, l.4)).collect();
+                rel.sort();
+                rel
+            }))
+            .collect();
+        keys.sort();
+        keys
+    };
+    let mut sarif_reference: Option<Vec<String>> = None;
     for seed in 0..seeds {
-        let a = bin(dir, &["passes.circom".to_string()], seed);
-        let b = bin(dir, &["passes.circom".to_string()], seed);
+        let sarif_path = dir.join("passes.sarif");
+        let _ = std::fs::remove_file(&sarif_path);
+        let a = bin(dir, &["passes.circom".to_string(), "--sarif-file".to_string(), sarif_path.display().to_string()], seed);
+        // The SARIF file must hold the same results under every seed, too.
+        let sk = sarif_keys(&sarif_path);
+        match &sarif_reference {
+            None => sarif_reference = Some(sk),
+            Some(r) if *r != sk => {
+                let mut c = case.clone();
+                c["seed"] = json!(seed);
+                let lost: Vec<&String> = r.iter().filter(|k| !sk.contains(k)).collect();
+                let extra: Vec<&String> = sk.iter().filter(|k| !r.contains(k)).collect();
+                out.push(Violation {
+                    signature: format!("hash-seed/sarif/{}", lost.first().or(extra.first()).map(|k| k.split('|').next().unwrap_or("")).unwrap_or("")),
+                    what: format!("the SARIF results for the pass corpus depend on the hash seed (seed {seed} vs seed 0)"),
+                    case: c,
+                    expected: "the same SARIF results under every hash seed".into(),
+                    observed: format!("only with seed 0: {lost:?}\nonly with seed {seed}: {extra:?}"),
+                });
+                break;
+            }
+            _ => {}
+        }
+        let b = bin(dir, &["passes.circom".to_string(), "--sarif-file".to_string(), sarif_path.display().to_string()], seed);
         runs += 2;
         if a.stdout != b.stdout {
             out.push(Violation {
